@@ -25,6 +25,11 @@ pub fn verif_root() -> PathBuf {
 	PathBuf::from(std::env::var("VERIF_ROOT").unwrap_or_else(|_| "/verif".into()))
 }
 
+/// Where evidence and replay files go (default: the verif root; mutant trials divert it).
+pub fn out_root() -> PathBuf {
+	std::env::var("VERIF_OUT").map(PathBuf::from).unwrap_or_else(|_| verif_root())
+}
+
 pub fn seed() -> i64 {
 	std::env::var("VERIF_SEED").ok().and_then(|s| s.parse().ok()).unwrap_or(0)
 }
@@ -136,7 +141,7 @@ impl Run {
 			}
 			return
 		}
-		let dir = verif_root().join("replays");
+		let dir = out_root().join("replays");
 		let _ = std::fs::create_dir_all(&dir);
 		let body = serde_json::to_string_pretty(&replay).unwrap();
 		let h = crate::core::fnv(body.as_bytes(), 0xcbf29ce484222325);
@@ -167,7 +172,7 @@ impl Run {
 			"wall_s": wall,
 			"violations": self.violations.len(),
 		});
-		let dir = verif_root().join("evidence");
+		let dir = out_root().join("evidence");
 		let _ = std::fs::create_dir_all(&dir);
 		let path = dir.join(format!("{}.json", self.property));
 		std::fs::write(&path, serde_json::to_string_pretty(&ev).unwrap()).expect("write evidence");
